@@ -13,6 +13,8 @@ import (
 type Layout struct {
 	rng      *rand.Rand
 	CRLF     bool
+	Mixed    bool // CRLF and LF line ends mixed within one document (implies CRLF for the expression markers)
+	mixSeed  int64
 	Tabs     bool
 	Comments bool
 	Parens   bool
@@ -63,6 +65,10 @@ func NewLayout(rng *rand.Rand) *Layout {
 		l.Parens = rng.Intn(2) == 0
 		l.Extra = rng.Intn(3) > 0
 		l.Long = rng.Intn(40) == 0
+		if l.CRLF && rng.Intn(2) == 0 {
+			l.Mixed = true
+			l.mixSeed = rng.Int63()
+		}
 	}
 	return l
 }
@@ -226,6 +232,28 @@ func (l *Layout) String() string {
 	sep := "\n"
 	if l.CRLF {
 		sep = "\r\n"
+	}
+	if l.Mixed {
+		// every line end is CRLF or LF on its own (a header saved on one system, a body written on another): runs of
+		// LF-only lines between CRLF ones, with whatever comments the layout put there
+		mr := rand.New(rand.NewSource(l.mixSeed))
+		var b strings.Builder
+		run := false
+		for i, ln := range all {
+			b.WriteString(ln)
+			if i == len(all)-1 {
+				break
+			}
+			if mr.Intn(4) == 0 {
+				run = !run
+			}
+			if run {
+				b.WriteString("\n")
+			} else {
+				b.WriteString("\r\n")
+			}
+		}
+		return strings.ReplaceAll(strings.ReplaceAll(b.String(), "\x00\r\n", "\n"), "\x00\n", "\n")
 	}
 	return strings.ReplaceAll(strings.Join(all, sep), "\x00\r\n", "\n")
 }
